@@ -28,5 +28,14 @@ mcMatchers ==
     M("type", "Type", "b", "", FALSE, "bool", FALSE),
     M("custom", "Custom", "a", "\"custom result\"", TRUE, "", FALSE),
     M("custom", "Custom", "l.1", "\"c\"", TRUE, "", TRUE),
-    M("custom", "Custom", "zz", "\"c\"", FALSE, "", FALSE) }
+    M("custom", "Custom", "zz", "\"c\"", FALSE, "", FALSE),
+    \* string placeholders that spell another YAML/JSON type, the empty string, a null callback result,
+    \* a Type matcher meeting null where a missing path would be tolerated
+    M("any", "Any", "a", "\"12345\"", TRUE, "", FALSE),
+    M("any", "Any", "n.xy", "\"true\"", TRUE, "", FALSE),
+    M("custom", "Custom", "l.0", "\"null\"", TRUE, "", FALSE),
+    M("any", "Any", "b", "\"\"", TRUE, "", FALSE),
+    M("any", "Any", "n.x", "\"\"", TRUE, "", FALSE),
+    M("custom", "Custom", "a", "null", TRUE, "", FALSE),
+    M("type", "Type", "n.x", "", FALSE, "float64", FALSE) }
 =============================================================================
